@@ -46,8 +46,8 @@ func clean(err error) string {
 
 // pathVerdict: does text name the keys outermost -> innermost, in order?
 //
-//	"" ok | "wrong-order" all keys present, not in order | "missing" no node path in the text at all |
-//	"wrong-node" a node path is printed but the failing node is not in it | "incomplete" an enclosing node is missing
+//	"" ok | "wrong-order" the right keys in the wrong order | "missing" no key of the path in the text |
+//	"wrong-node" the printed path names a node that is not on the failing path | "incomplete" part of the path is missing
 func pathVerdict(text string, keys []string) string {
 	if len(keys) == 0 {
 		return ""
@@ -71,13 +71,36 @@ func pathVerdict(text string, keys []string) string {
 			present++
 		}
 	}
+	// diagnosis from the printed "node path: [...]" list, when there is one
+	if i := strings.LastIndex(text, "node path: ["); i >= 0 {
+		rest := text[i+len("node path: ["):]
+		if j := strings.Index(rest, "]"); j >= 0 {
+			printed := strings.Split(rest[:j], ", ")
+			exp := map[string]bool{}
+			for _, k := range keys {
+				exp[k] = true
+			}
+			subset := true
+			for _, k := range printed {
+				if !exp[k] {
+					subset = false
+				}
+			}
+			switch {
+			case !subset:
+				return "wrong-node"
+			case len(printed) == len(keys):
+				return "wrong-order"
+			default:
+				return "incomplete"
+			}
+		}
+	}
 	switch {
 	case present == len(keys):
 		return "wrong-order"
-	case !strings.Contains(text, "node path"):
+	case present == 0:
 		return "missing"
-	case !strings.Contains(text, keys[len(keys)-1]):
-		return "wrong-node"
 	default:
 		return "incomplete"
 	}
